@@ -11,13 +11,13 @@ PRIMITIVE = {("plane", "sphere"), ("plane", "capsule"), ("plane", "ellipsoid"), 
              ("sphere", "cylinder"), ("sphere", "box"), ("capsule", "capsule"), ("capsule", "box")}
 
 
-def gen(n, types=("plane", "sphere", "capsule", "ellipsoid", "cylinder", "box", "mesh")):
+def gen(n, types=("plane", "hfield", "sphere", "capsule", "ellipsoid", "cylinder", "box", "mesh")):
   mod = "---- MODULE Gen_CollisionFamily ----\nEXTENDS CollisionFamily\nGTypes == {" + ", ".join('"%s"' % t for t in types) + "}\n====\n"
   cfg = f"CONSTANTS\n  Types <- GTypes\n  Mode = \"sim\"\n  NCase = {n}\nSPECIFICATION Spec\nINVARIANT Ordered\nINVARIANT MixSymmetric\nINVARIANT EmitCase\n"
   return {"Gen_CollisionFamily.tla": mod, "Gen_CollisionFamily.cfg": cfg}
 
 
-def gen_enum(types=("plane", "sphere", "capsule", "ellipsoid", "cylinder", "box", "mesh")):
+def gen_enum(types=("plane", "hfield", "sphere", "capsule", "ellipsoid", "cylinder", "box", "mesh")):
   mod = "---- MODULE Enum_CollisionFamily ----\nEXTENDS CollisionFamily\nGTypes == {" + ", ".join('"%s"' % t for t in types) + "}\n====\n"
   cfg = "CONSTANTS\n  Types <- GTypes\n  Mode = \"enum\"\n  NCase = 1\nSPECIFICATION Spec\nINVARIANT Ordered\nINVARIANT MixSymmetric\nINVARIANT EmitCase\nCHECK_DEADLOCK FALSE\n"
   return {"Enum_CollisionFamily.tla": mod, "Enum_CollisionFamily.cfg": cfg}
@@ -74,6 +74,35 @@ def _chunk(args):
     tol = 2e-5 if prim else 2e-3
     for w in range(2):
       got = collide.mjw_contacts(mjw, m, d, w)
+      if c["t1"] == "hfield":
+        # a height field meets the geom prism by prism: mj_collision lists every prism's contact (coinciding ones included), MJWarp keeps a bounded
+        # number of distinct ones.  Decidable: every contact MJWarp reports is one of MuJoCo's, and MuJoCo's deepest contact is among them.
+        near = lambda y, x: abs(y["dist"] - x["dist"]) <= tol and np.abs(y["pos"] - x["pos"]).max() <= 5 * tol and np.abs(y["frame"][0] - x["frame"][0]).max() <= 2e-2
+        extra = sorted([y for y in got if not any(near(y, x) for x in ref)], key=lambda y: y["frame"][0][2])
+        deepest = min(ref, key=lambda x: x["dist"]) if ref else None
+        pairn = f"{c['t1']}-{c['t2']}"
+        if extra:
+          y = extra[0]
+          down = y["frame"][0][2] < -0.5  # a normal from the terrain to the geom that points DOWN: the contact pushes the geom into the terrain
+          out.append(({"what": "contact differs from mj_collision", "pair": pairn, "field": "extra", "cls": "hfield_downward_contact" if down else "hfield_contact_not_in_mujoco"},
+                      f"world {w}: dist {y['dist']:.5f} pos {y['pos'].round(4).tolist()} normal {y['frame'][0].round(3).tolist()} is none of mj_collision's {len(ref)} contacts "
+                      f"(their distances {sorted(round(x['dist'], 5) for x in ref)[:6]})", where))
+          break
+        if deepest is not None and not any(near(y, deepest) for y in got):
+          out.append(({"what": "contact differs from mj_collision", "pair": pairn, "field": "deepest", "cls": "hfield_deepest_missing"},
+                      f"world {w}: mj_collision's deepest contact (dist {deepest['dist']:.5f}) is not reported; reported {sorted(round(y['dist'], 5) for y in got)}", where))
+          break
+        bad = None
+        for y in got:
+          x = next(x for x in ref if near(y, x))
+          if y["geom"] != x["geom"] or y["dim"] != x["dim"] or np.abs(y["friction"] - x["friction"]).max() > 1e-6 or np.abs(y["solref"] - x["solref"]).max() > 1e-6 \
+              or np.abs(y["solimp"] - x["solimp"]).max() > 1e-6 or abs(y["includemargin"] - x["includemargin"]) > 1e-7:
+            bad = f"geoms / parameters {y['geom']} {y['dim']} {y['friction']} {y['includemargin']} vs {x['geom']} {x['dim']} {x['friction']} {x['includemargin']}"
+            break
+        if bad:
+          out.append(({"what": "contact differs from mj_collision", "pair": pairn, "field": "parameters"}, f"world {w}: {bad}", where))
+          break
+        continue
       if len(got) != len(ref):
         cls = {}
         if c["explicit"] and c["pose"] == "margin" and len(got) < len(ref):
@@ -128,7 +157,7 @@ def _chunk(args):
 
 
 def run(ctx: core.Ctx):
-  ctx.rule = ("CollisionFamily.tla: geom type pairs over {plane, sphere, capsule, ellipsoid, cylinder, box, convex mesh} x pose class {separated, inside margin, "
+  ctx.rule = ("CollisionFamily.tla: geom type pairs over {plane, height field, sphere, capsule, ellipsoid, cylinder, box, convex mesh} x pose class {separated, inside margin, "
               "touching, shallow, deep} x per-geom condim / priority / friction / margin / solmix x explicit pair; TLC checks the parameter-mixing rule "
               "(symmetry) and emits cases with the expected condim / friction / margin. Each case is concretised (random orientations; the free geom "
               "is placed by bisection at the class's signed distance) and mjw.collision compared with mj_collision per contact: geoms, dim, dist, "
@@ -158,7 +187,7 @@ def run(ctx: core.Ctx):
   ctx.traces_validated = len(cases)
   ctx.extra["contacts_compared"] = ncon
   ctx.assumptions += ["primitive (closed-form) pairs: dist 2e-5, pos 1e-4, normal 1e-4; convex (GJK/EPA) pairs: dist 2e-3, pos 1e-2, normal 2e-2 - the convex solver's tolerance",
-                      "meshes are random convex polytopes of 8..14 vertices; height fields and sdf geoms are not generated; mesh pairs with a margin under multiccd are rejected by put_model and skipped"]
+                      "meshes are random convex polytopes of 8..14 vertices; height fields are random 4..6 x 4..6 terrains and are compared by a subset rule (every reported contact is one of mj_collision's per-prism contacts, and its deepest one is reported), sdf geoms are not generated; mesh pairs with a margin under multiccd are rejected by put_model and skipped"]
 
 
 def replay(ctx, scen):
@@ -169,6 +198,6 @@ META = {
   "text": "CollisionFamily.tla spans geom type pairs x pose classes x parameter classes and states the parameter-mixing rule; TLC emits cases "
           "with the expected mixed parameters; each is concretised at a prescribed signed distance and every contact mjw.collision reports is "
           "matched with mj_collision's (geoms, dim, distance, position, normal, friction, solver parameters, margin).",
-  "note": "differential against MuJoCo C; pose-unstable reference cases skipped and counted; convex meshes included, no hfield/sdf geoms",
+  "note": "differential against MuJoCo C; pose-unstable reference cases skipped and counted; convex meshes and height fields included (height fields: subset rule, see assumptions), no sdf geoms",
   "technique": "TLA+ case family + parameter-mixing rule (CollisionFamily.tla) enumerated by TLC; spec->code replay with MuJoCo C as oracle",
 }
